@@ -7,12 +7,14 @@ import argparse, concurrent.futures as cf, json, os, subprocess, sys
 ROOT = os.path.dirname(os.path.dirname(os.path.abspath(__file__)))
 sys.path.insert(0, ROOT)
 from selftest.catalogue import MUTANTS
-ap = argparse.ArgumentParser()
+ap = argparse.ArgumentParser(allow_abbrev=False)
 ap.add_argument("--seeded", action="store_true")
 ap.add_argument("--only", default=None)
 ap.add_argument("--tier", default="quick")
 ap.add_argument("--all-checks", action="store_true")
 ap.add_argument("--jobs", type=int, default=3)
+ap.add_argument("--seed", default="0")
+ap.add_argument("--out", default=None)
 a = ap.parse_args()
 jobs = []
 if a.seeded:
@@ -28,7 +30,7 @@ if a.only:
     jobs = [j for j in jobs if j[0] in a.only.split(",")]
 def run(job):
     name, prop, target = job
-    cmd = [os.path.join(ROOT, "tools", "seedtest.py"), target, "--tier", a.tier, "--checks", "all" if a.all_checks else prop]
+    cmd = [os.path.join(ROOT, "tools", "seedtest.py"), target, "--tier", a.tier, "--seed", a.seed, "--checks", "all" if a.all_checks else prop]
     p = subprocess.run(cmd, capture_output=True, text=True)
     try:
         return name, prop, json.loads(p.stdout.strip().splitlines()[-1])
@@ -44,7 +46,7 @@ with cf.ThreadPoolExecutor(a.jobs) as ex:
         ex_codes = {c: v["exit"] for c, v in r["checks"].items()}
         sig = r["checks"].get(prop, {}).get("signatures", [])
         print(f"{name:42s} {prop} tests_pass={r.get('repo_tests_pass_with_patch')} demo_ok={r.get('demo_fails_with_patch')}/{r.get('demo_passes_without_patch')} caught_by={caught} exits={ex_codes if not caught else ''} {sig[:3]}", flush=True)
-path = os.path.join(ROOT, "selftest", "last_run_" + ("seeded" if a.seeded else "mutants") + ".json")
+path = a.out or os.path.join(ROOT, "selftest", "last_run_" + ("seeded" if a.seeded else "mutants") + ".json")
 merged = {}
 if a.only and os.path.exists(path):
     merged = json.load(open(path))
